@@ -93,6 +93,7 @@ func collectEncodings(tier string, rng *rand.Rand, perKind int) []validEnc {
 
 func c06Gen(tier string, rng *rand.Rand, emit func(Case)) {
 	wireNorms()
+	prevOfKind, nTwo := map[string]string{}, map[string]int{}
 	for _, k := range codecKinds() {
 		c := codecRegistry[k]
 		if c.Gen == nil {
@@ -110,6 +111,15 @@ func c06Gen(tier string, rng *rand.Rand, emit func(Case)) {
 			}
 			if c.SpecEnc != nil {
 				emit(Case{Line: "pkg spec " + k + " " + fields, Kind: "spec:" + k})
+				// two packages of the kind one after the other (every 5th case with its predecessor)
+				if !c.NeedsCtx && len(fields) < 4000 && !ffIsBlobCase("pkg spec "+k+" "+fields) { // BLOB columns: known finding, judged in the single-package cases
+
+					if prev, ok := prevOfKind[k]; ok && prev != fields && nTwo[k]%5 == 0 {
+						emit(Case{Line: "pkg two " + k + " " + prev + " ;; " + fields, Kind: "two:" + k})
+					}
+					nTwo[k]++
+					prevOfKind[k] = fields
+				}
 				f := strings.Fields(fields)
 				if bs, ok := c.SpecEnc(f); ok && len(bs) > 0 {
 					ctx := "-"
@@ -127,6 +137,29 @@ func c06Oracle(line, out string) string {
 	wireNorms()
 	f := strings.Fields(line)
 	if len(f) < 3 {
+		return ""
+	}
+	if f[1] == "two" {
+		c := codecRegistry[f[2]]
+		if c == nil {
+			return ""
+		}
+		if out == "panic" || out == "timeout" {
+			return "no codec panics or hangs on a valid package"
+		}
+		var want []string
+		cur := []string{}
+		for _, t := range append(append([]string{}, f[3:]...), ";;") {
+			if t == ";;" {
+				want = append(want, strings.Join(normFields(c, cur), " "))
+				cur = []string{}
+				continue
+			}
+			cur = append(cur, t)
+		}
+		if out != "ok "+strings.Join(want, " ;; ") {
+			return "an independently produced encoding decodes to the same field values — also as the second package of its kind, and the first keeps its values"
+		}
 		return ""
 	}
 	if out == "panic" || out == "timeout" {
@@ -484,6 +517,25 @@ func c10Gen(tier string, rng *rand.Rand, emit func(Case)) {
 	// packet level: all header values incl. length < 8 (c14.go)
 	rdrawGen(tier, rng, emit)
 	rdconnGen(tier, rng, emit)
+	// a message whose end-of-message packet holds, behind k complete packages, one that cannot be parsed (a
+	// data package without a format) and more bytes; then the next message in a tiny first packet and the
+	// rest: the unparsable rest of the first message, and the position in it, are not applied to the next
+	for _, k := range []int{1, 2, 5, 11, 30} {
+		var first []byte
+		for j := 0; j < k; j++ {
+			first = append(first, wDone(0xFD, 1, 0, j)...)
+		}
+		for _, bad := range [][]byte{{0xD1, 1, 2, 3}, {0xD7, 0}, {0xE5, 2, 0, 1, 1, 9}} {
+			var next []byte // longer than the first message, so that bytes are "unread" whatever position is in force
+			for j := 0; j < k+2; j++ {
+				next = append(next, wDone(0xFD, 1, 0, 100+j)...)
+			}
+			next = append(next, wDone(0xFD, 0, 0, 7)...)
+			for _, cut := range []int{1, 2, 5} {
+				emit(Case{Line: fmt.Sprintf("rx 0 0 b1:%s b0:%s b1:%s", hx(append(append([]byte{}, first...), bad...)), hx(next[:cut]), hx(next[cut:])), Kind: "unparsable-end-then-next"})
+			}
+		}
+	}
 	// a message that ends inside a format package (or whose format names a data type that does not exist),
 	// then a message that starts with the data package such a format would describe: the half-read format
 	// is not what the data package is read against
@@ -596,7 +648,7 @@ func init() {
 	register(&Prop{
 		ID: "C06", Gen: c06Gen, Impl: pkgImpl, Oracle: c06Oracle,
 		NoModel: func(line string) bool {
-			return strings.HasPrefix(line, "pkg spec ") || strings.HasPrefix(line, "pkg specdec ")
+			return strings.HasPrefix(line, "pkg spec ") || strings.HasPrefix(line, "pkg specdec ") || strings.HasPrefix(line, "pkg two ")
 		},
 		FindingKey: func(line, out, clause string) string {
 			if ffIsBlobCase(line) {
@@ -639,7 +691,7 @@ func init() {
 			return clause
 		},
 		Nontrivial: pkgNontrivial, NoShrink: true, Timeout: 30 * time.Second,
-		Rule:        "valid encodings of every package kind with every byte (sampled on long ones) replaced by 00/01/7f/80/fe/ff, random multi-byte mutations with truncation and trailing garbage, hostile 2- and 4-byte little-endian values (0x7fffffff, 0x80000000, 0xffffffff, 0x7fff, 0x8000, 0xffff) at every offset of the first 28 bytes of encodings sampled evenly over every kind's generator (every data type of the format and data packages), and arbitrary bytes after each of the 256 token values; real ReadFrom under recover vs the Lean decoder (outcome class and fields must agree); packet level: the reader loop (Packet.ReadFrom per iteration) on streams of 1..3 packets with every announced length 0..16, every header type/status value, random header fields, truncations and read schedules vs the Lean reader model. value level: GoValue on every data type byte 0..255 with every data length 0..255 (zero, 0xff and random data) vs the Lean value model; allocation probe: every 60th (thorough: 12th) hostile-length case again in a process of its own that measures what it allocates. Non-trivial = well-formed case",
+		Rule: "valid encodings of every package kind with every byte (sampled on long ones) replaced by 00/01/7f/80/fe/ff, random multi-byte mutations with truncation and trailing garbage, hostile 2- and 4-byte little-endian values (0x7fffffff, 0x80000000, 0xffffffff, 0x7fff, 0x8000, 0xffff) at every offset of the first 28 bytes of encodings sampled evenly over every kind's generator (every data type of the format and data packages), and arbitrary bytes after each of the 256 token values; real ReadFrom under recover vs the Lean decoder (outcome class and fields must agree); packet level: the reader loop (Packet.ReadFrom per iteration) on streams of 1..3 packets with every announced length 0..16, every header type/status value, random header fields, truncations and read schedules vs the Lean reader model. value level: GoValue on every data type byte 0..255 with every data length 0..255 (zero, 0xff and random data) vs the Lean value model; allocation probe: every 60th (thorough: 12th) hostile-length case again in a process of its own that measures what it allocates. Non-trivial = well-formed case",
 		NoModel: func(line string) bool {
 			if strings.HasPrefix(line, "login ") && (strings.Contains(line, ",kx,") || strings.Contains(line, ",ky,") || strings.Contains(line, ",kq,")) {
 				return true // a length field that announces more than arrives: outside the login model (see C08)
